@@ -39,7 +39,7 @@ fn digest2(v: u32, msg: &[u8], split: usize) -> Vec<u8> {
             // (FixedOutput::finalize_fixed_reset) or absorbed data and was reset
             match (msg.len() + split) % 4 {
                 2 => {
-                    digest::Update::update(&mut h, &msg[..msg.len().min(5)]);
+                    digest::Update::update(&mut h, &msg[..if (msg.len() / 4) % 2 == 0 { 0 } else { msg.len().min(5) }]);
                     let _ = digest::FixedOutput::finalize_fixed_reset(&mut h);
                 }
                 3 => {
